@@ -24,12 +24,19 @@
        TupleExpr ArrayExpr ParenExpr RecordExpr MacroExpansion QualifiedPath FieldAccess IndexExpr ParamList ArgList
        TuplePattern RecordPattern TupleType RecordType and the leaf-like kinds printed by print_leaf_children (literals,
        Identifier, SinglePattern, Pattern, TypeAnnotation, ParamDefault, EscapeExpr, BracketExpr, IncludeStmt, StageDecl, the
-       simple types).  Everything else (match, type declarations, modules, use, visibility, ...) is `SOutside`.
+       simple types), and -- second part of the file -- the rest of the syntax:
+       MatchExpr MatchArm MatchPattern ConstructorPattern TypeDecl VariantDef (children separated by single blanks),
+       MatchArmList (blanks, a FORCED break before an arm that starts with `(` and follows an arm directly),
+       ModuleDecl (body laid out by print_block_expr), UseStmt UseTargetMultiple UseTargetWildcard VisibilityPub,
+       macro definitions (`macro` token of a FunctionDecl), UnionType as return type of a lambda.
+       Only Error nodes are `SOutside`.  The printer modelled is the one AFTER the fixes FM11..FM14.
    * the `pretty` crate's document smart constructors (append drops Nil, group/nest are no-ops on Nil/text) and its rule for
      the indentation after a newline (render.rs Best::best, arm Hardline: the indentation of the NEXT pending command).
-   * the parser's use of line breaks: a line break between two syntax tokens p, w changes the parse only if w is a postfix
-     opener `(` `[` `.` and p can end an expression (`sensitive`).  `observed` lists, for a rendering, the line-break flags
-     at exactly those positions. *)
+   * the parser's use of line breaks (has_trailing_linebreak): a line break between two syntax tokens p, w changes the parse
+     only if p can end an expression and w is a postfix opener `(` `[` `.` (parse_postfix_expr) or a comma (parse_match_expr:
+     after an arm a line break makes the parser start the next arm, so a following comma is an error; without it the comma
+     is consumed) (`sensitive`).  `observed` lists, for a rendering, the line-break flags at exactly those positions;
+     `src_observed` the flags of the source text itself (from the trivia of the green tree). *)
 From Coq Require Import String Ascii List Bool Arith.
 Import ListNotations.
 Local Open Scope string_scope.
@@ -247,7 +254,16 @@ Definition is_alnum (c : ascii) : bool :=
 
 (* the previous syntax token can be the end of a postfix operand: identifier / literal / keyword-literal / closing delimiter
    (an over-approximation: every word-like token counts) *)
+Fixpoint mem_string (x : string) (l : list string) : bool :=
+  match l with [] => false | y :: r => String.eqb x y || mem_string x r end.
+
+(* reserved words (tokenizer.rs) that are not expressions: no primary expression ends with them *)
+Definition non_expr_keywords : list string :=
+  ["fn"; "macro"; "let"; "letrec"; "if"; "else"; "match"; "include"; "stage"; "main"; "mod"; "use"; "pub"; "type"; "alias";
+   "rec"; "float"; "int"; "string"; "struct"].
+
 Definition ends_expr (p : string) : bool :=
+  negb (mem_string p non_expr_keywords) &&
   match last_char p with
   | Some c => is_alnum c || Ascii.eqb c """"%char || Ascii.eqb c ")"%char || Ascii.eqb c "]"%char || Ascii.eqb c "}"%char
   | None => false
@@ -263,22 +279,45 @@ Definition is_comment (w : string) : bool :=
   | _ => false
   end.
 
-Definition sensitive (p w : string) : bool := ends_expr p && opens w.
+(* context of a position: (1) whether the previous token is the NAME of a function / macro declaration (it directly
+   follows `fn` / `macro`: the parameter list that follows is not a call); (2) for every bracket that is open there (innermost
+   first), whether it is a `{` written directly after the end of an expression -- the brace of a match (after the scrutinee),
+   of a block (`fn f() {`, `if (c) {`) or of a module.  In a valid program only the first kind has commas at its own depth:
+   the commas between match arms. *)
+Definition ctx : Type := (bool * list bool)%type.
+Definition ctx0 : ctx := (false, []).
+
+Definition is_open_bracket (w : string) : bool := String.eqb w "(" || String.eqb w "[" || String.eqb w "{".
+Definition is_close_bracket (w : string) : bool := String.eqb w ")" || String.eqb w "]" || String.eqb w "}".
+
+Definition can_end (st : ctx) (p : string) : bool := negb (fst st) && ends_expr p.
+
+(* the context after the token w (whose predecessor is prev) *)
+Definition ctx_step (prev : option string) (w : string) (st : ctx) : ctx :=
+  (match prev with Some p => String.eqb p "fn" || String.eqb p "macro" | None => false end,
+   if is_open_bracket w then (String.eqb w "{" && match prev with Some p => can_end st p | None => false end) :: snd st
+   else if is_close_bracket w then tl (snd st)
+   else snd st).
+
+(* the parser consults has_trailing_linebreak() with a deciding outcome: before a postfix opener after an expression
+   (parse_postfix_expr), and before the comma that follows a match arm (parse_match_expr) *)
+Definition sensitive (st : ctx) (p w : string) : bool :=
+  can_end st p && (opens w || (String.eqb w "," && hd false (snd st))).
 
 (* has_trailing_linebreak() at the sensitive positions: `prev` = previous syntax token, lb = a line break lies between *)
-Fixpoint observed_from (prev : option string) (lb : bool) (l : list shape) : list bool :=
+Fixpoint observed_from (prev : option string) (lb : bool) (st : ctx) (l : list shape) : list bool :=
   match l with
   | [] => []
-  | SP :: r => observed_from prev lb r
-  | NL :: r => observed_from prev true r
+  | SP :: r => observed_from prev lb st r
+  | NL :: r => observed_from prev true st r
   | W w :: r =>
-      if is_comment w then observed_from prev lb r
+      if is_comment w then observed_from prev lb st r
       else
-        let here := match prev with Some p => if sensitive p w then [lb] else [] | None => [] end in
-        here ++ observed_from (Some w) false r
+        let here := match prev with Some p => if sensitive st p w then [lb] else [] | None => [] end in
+        here ++ observed_from (Some w) false (ctx_step prev w st) r
   end.
 
-Definition observed (r : list atom) : list bool := observed_from None false (shapes r).
+Definition observed (r : list atom) : list bool := observed_from None false ctx0 (shapes r).
 
 (* the linear sequence of a document: words, blanks, optional breaks, forced breaks *)
 Inductive item : Type := IW (w : string) | ISP | IOPT | IHARD.
@@ -298,24 +337,44 @@ Inductive bstate : Type := BNone | BOpt | BHard.
 Definition badd_opt (b : bstate) : bstate := match b with BNone => BOpt | x => x end.
 
 (* no optional break decides a sensitive position: between a token that can end an expression and a following postfix
-   opener there is either a forced break or no break point at all *)
-Fixpoint safe_from (prev : option string) (b : bstate) (l : list item) : bool :=
+   opener (or match-arm comma) there is either a forced break or no break point at all *)
+Fixpoint safe_from (prev : option string) (b : bstate) (st : ctx) (l : list item) : bool :=
   match l with
   | [] => true
-  | ISP :: r => safe_from prev b r
-  | IOPT :: r => safe_from prev (badd_opt b) r
-  | IHARD :: r => safe_from prev BHard r
+  | ISP :: r => safe_from prev b st r
+  | IOPT :: r => safe_from prev (badd_opt b) st r
+  | IHARD :: r => safe_from prev BHard st r
   | IW w :: r =>
-      if is_comment w then safe_from prev b r
+      if is_comment w then safe_from prev b st r
       else
         let ok := match prev with
-                  | Some p => if sensitive p w then match b with BOpt => false | _ => true end else true
+                  | Some p => if sensitive st p w then match b with BOpt => false | _ => true end else true
                   | None => true
                   end in
-        ok && safe_from (Some w) BNone r
+        ok && safe_from (Some w) BNone (ctx_step prev w st) r
   end.
 
-Definition safe_breaks (d : doc) : bool := safe_from None BNone (items d).
+Definition safe_breaks (d : doc) : bool := safe_from None BNone ctx0 (items d).
+
+(* the line-break flags a document FORCES at the sensitive positions (meaningful when safe_breaks holds): true where a hard
+   line lies between the two tokens, false where there is no break point *)
+Fixpoint det_from (prev : option string) (b : bstate) (st : ctx) (l : list item) : list bool :=
+  match l with
+  | [] => []
+  | ISP :: r => det_from prev b st r
+  | IOPT :: r => det_from prev (badd_opt b) st r
+  | IHARD :: r => det_from prev BHard st r
+  | IW w :: r =>
+      if is_comment w then det_from prev b st r
+      else
+        let here := match prev with
+                    | Some p => if sensitive st p w then [match b with BHard => true | _ => false end] else []
+                    | None => []
+                    end in
+        here ++ det_from (Some w) BNone (ctx_step prev w st) r
+  end.
+
+Definition doc_flags (d : doc) : list bool := det_from None BNone ctx0 (items d).
 
 (* ------------------------------------------------------------------------------------------------ *)
 (* the green tree as the printer sees it                                                              *)
@@ -334,6 +393,7 @@ Inductive tkind : Type :=
 | KBlockBegin | KBlockEnd | KParenBegin | KParenEnd | KArrayBegin | KArrayEnd
 | KIdent                  (* Ident | IdentFunction | IdentVariable *)
 | KMacroExpand | KLeftArrow | KDoubleColon
+| KMacro | KMod | KUse | KPub
 | KOther.
 
 Inductive skind : Type :=
@@ -343,8 +403,11 @@ Inductive skind : Type :=
                                          opening delimiter (TupleExpr ParamList ArgList TuplePattern TupleType) *)
 | SParenExpr
 | SRecordExpr | SMacroExpansion | SQualifiedPath
-| SLeaf (is_type : bool)  (* printed by print_leaf_children; is_type = one of the 8 kinds print_lambda_expr calls a type node *)
-| SOutside.               (* outside the fragment *)
+| SLeaf (is_type : bool)  (* printed by print_leaf_children; is_type = one of the 9 kinds print_lambda_expr calls a type node *)
+| SSpaced                 (* MatchExpr MatchArm MatchPattern ConstructorPattern TypeDecl VariantDef: intersperse(children, space) *)
+| SMatchArmList
+| SModuleDecl | SUseStmt | SUseMultiple | SUseWildcard | SVisibilityPub
+| SOutside.               (* outside the fragment (Error nodes) *)
 
 Inductive cst : Type :=
 | Tok (k : tkind) (text : string) (lead trail : list trivia)
@@ -398,10 +461,10 @@ Fixpoint first_tkind (c : cst) : option tkind :=
 Definition is_comment_trivia (t : trivia) : bool :=
   match t with TLine _ | TBlock _ => true | _ => false end.
 
-(* print_function_decl: every child in order, a space after `fn` *)
+(* print_function_decl: every child in order, a space after `fn` / `macro` *)
 Fixpoint print_function_decl (cs : list cst) (ds : list doc) : doc :=
   match cs, ds with
-  | Tok KFunction _ _ _ :: cr, d :: dr => cat d (cat space (print_function_decl cr dr))
+  | Tok (KFunction | KMacro) _ _ _ :: cr, d :: dr => cat d (cat space (print_function_decl cr dr))
   | _ :: cr, d :: dr => cat d (print_function_decl cr dr)
   | _, _ => Nil
   end.
@@ -677,6 +740,92 @@ Fixpoint print_unary_scan (first : bool) (cs : list cst) (ds : list doc) (acc : 
 
 Definition print_unary_expr (cs : list cst) (ds : list doc) : doc := print_unary_scan true cs ds Nil.
 
+(* ------------------------------------------------------------------------------------------------ *)
+(* the rest of the syntax                                                                             *)
+(* ------------------------------------------------------------------------------------------------ *)
+Definition is_node (c : cst) : bool := match c with Node _ _ => true | Tok _ _ _ _ => false end.
+
+Definition opens_paren (c : cst) : bool := match first_tkind c with Some KParenBegin => true | _ => false end.
+
+(* cst_to_doc, arm MatchArmList: a blank between the children (arms and their commas); the break is forced before an arm
+   that starts with `(` and follows an arm directly (arms separated by a line break, not by a comma) *)
+Fixpoint print_arm_list (prev : option cst) (cs : list cst) (ds : list doc) (acc : doc) : doc :=
+  match cs, ds with
+  | c :: cr, d :: dr =>
+      let sep := match prev with
+                 | None => Nil
+                 | Some p => if is_node p && opens_paren c then HardLine else space
+                 end in
+      print_arm_list (Some c) cr dr (cat (cat acc sep) d)
+  | _, _ => acc
+  end.
+
+(* print_module_decl: `mod` and the name are followed by a blank; from `{` on the children are printed by print_block_expr *)
+Fixpoint print_module_scan (ind : nat) (cs : list cst) (ds : list doc) (seen_mod seen_name : bool) : doc :=
+  match cs, ds with
+  | Tok KBlockBegin _ _ _ :: _, _ :: _ => print_block_expr ind cs ds
+  | Tok KMod _ _ _ :: cr, d :: dr => cat d (cat space (print_module_scan ind cr dr true seen_name))
+  | Tok KIdent _ _ _ :: cr, d :: dr =>
+      if seen_mod && negb seen_name then cat d (cat space (print_module_scan ind cr dr seen_mod true))
+      else cat d (print_module_scan ind cr dr seen_mod seen_name)
+  | _ :: cr, d :: dr => cat d (print_module_scan ind cr dr seen_mod seen_name)
+  | _, _ => Nil
+  end.
+
+Definition is_use_target (c : cst) : bool :=
+  match c with Node (SQualifiedPath | SUseMultiple | SUseWildcard) _ => true | _ => false end.
+
+(* print_use_stmt: a blank after `use`; a path / target node BEFORE the `use` token is not printed *)
+Fixpoint print_use_scan (cs : list cst) (ds : list doc) (seen_use : bool) : doc :=
+  match cs, ds with
+  | Tok KUse _ _ _ :: cr, d :: dr => cat d (cat space (print_use_scan cr dr true))
+  | c :: cr, d :: dr =>
+      if is_use_target c && negb seen_use then print_use_scan cr dr seen_use
+      else cat d (print_use_scan cr dr seen_use)
+  | _, _ => Nil
+  end.
+
+(* print_use_target_multiple: (items, seps, found_open, open, close) *)
+Fixpoint print_use_multi_scan (cs : list cst) (ds : list doc) (its seps : list doc) (found_open : bool) (open close : doc)
+  : list doc * list doc * doc * doc :=
+  match cs, ds with
+  | c :: cr, d :: dr =>
+      match c with
+      | Tok KBlockBegin _ _ _ => print_use_multi_scan cr dr its seps true d close
+      | Tok KBlockEnd _ _ _ => print_use_multi_scan cr dr its seps found_open open d
+      | Tok KComma _ lead trail =>
+          print_use_multi_scan cr dr its (pad_to seps (length its) (length its) ++ [tcomments lead trail true true]) found_open open close
+      | _ => print_use_multi_scan cr dr (if found_open then its ++ [d] else its) seps found_open open close
+      end
+  | _, _ => (its, seps, open, close)
+  end.
+
+Definition print_use_multiple (cs : list cst) (ds : list doc) : doc :=
+  match print_use_multi_scan cs ds [] [] false Nil Nil with
+  | ([], _, open, close) => cat open close
+  | (its, seps, open, close) => cat (cat open (join_with_commas its seps (Text " "))) close
+  end.
+
+Definition is_star (c : cst) : bool :=   (* TokenKind::OpProduct *)
+  match c with Tok (KOp _ _) t _ _ => String.eqb t "*" | _ => false end.
+
+(* print_use_target_wildcard: only `::` and `*` tokens *)
+Fixpoint print_use_wildcard (cs : list cst) (ds : list doc) : doc :=
+  match cs, ds with
+  | c :: cr, d :: dr =>
+      let keep := match c with Tok KDoubleColon _ _ _ => true | _ => is_star c end in
+      if keep then cat d (print_use_wildcard cr dr) else print_use_wildcard cr dr
+  | _, _ => Nil
+  end.
+
+(* print_visibility_pub: only the `pub` token, followed by a blank *)
+Fixpoint print_visibility_pub (cs : list cst) (ds : list doc) : doc :=
+  match cs, ds with
+  | Tok KPub _ _ _ :: cr, d :: dr => cat d (cat space (print_visibility_pub cr dr))
+  | _ :: cr, _ :: dr => print_visibility_pub cr dr
+  | _, _ => Nil
+  end.
+
 (* cst_to_doc *)
 Fixpoint doc_of (ind : nat) (c : cst) : doc :=
   match c with
@@ -702,6 +851,13 @@ Fixpoint doc_of (ind : nat) (c : cst) : doc :=
       | SMacroExpansion => print_macro_expansion cs ds
       | SQualifiedPath => print_qualified_path cs ds
       | SLeaf _ => dconcat ds
+      | SSpaced => intersperse ds space
+      | SMatchArmList => print_arm_list None cs ds Nil
+      | SModuleDecl => print_module_scan ind cs ds false false
+      | SUseStmt => print_use_scan cs ds false
+      | SUseMultiple => print_use_multiple cs ds
+      | SUseWildcard => print_use_wildcard cs ds
+      | SVisibilityPub => print_visibility_pub cs ds
       | SOutside => dconcat ds
       end
   end.
@@ -722,6 +878,35 @@ Fixpoint cst_words (c : cst) : list string :=
   | Tok _ text lead trail => trivia_words lead ++ opt_list (word_of text) ++ trivia_words trail
   | Node _ cs => flat_map cst_words cs
   end.
+
+(* the source text as the parser sees it: every token with its trivia in order (blanks, line breaks, comments) *)
+Definition trivia_shapes (ts : list trivia) : list shape :=
+  flat_map (fun t => match t with
+                     | TLine s | TBlock s => match word_of s with Some w => [W w] | None => [] end
+                     | TNl => [NL]
+                     | TWs => [SP]
+                     end) ts.
+
+Fixpoint src_shapes (c : cst) : list shape :=
+  match c with
+  | Tok _ text lead trail =>
+      trivia_shapes lead ++ (match word_of text with Some w => [W w] | None => [] end) ++ trivia_shapes trail
+  | Node _ cs => flat_map src_shapes cs
+  end.
+
+(* the answers of has_trailing_linebreak() at the sensitive positions while the SOURCE is parsed *)
+Definition src_observed (c : cst) : list bool := observed_from None false ctx0 (src_shapes c).
+
+Fixpoint list_bool_eqb (a b : list bool) : bool :=
+  match a, b with
+  | [], [] => true
+  | x :: r, y :: t => Bool.eqb x y && list_bool_eqb r t
+  | _, _ => false
+  end.
+
+(* the document forces exactly the line breaks of the source at the sensitive positions *)
+Definition keeps_breaks (ind : nat) (c : cst) : bool :=
+  safe_breaks (doc_of ind c) && list_bool_eqb (doc_flags (doc_of ind c)) (src_observed c).
 
 (* hypothesis of C14_emits_all_same_tokens: the document emits every token text and every comment text once, in order *)
 Definition emits_all (ind : nat) (c : cst) : Prop := dwords (doc_of ind c) = cst_words c.
